@@ -189,6 +189,8 @@ def ofOpt {α} (o : Option α) : Res α :=
 
 /-- `Vec::with_capacity(n)`: the capacity is not observable -/
 def withCapacity {α} (_n : Nat) : List α := []
+/-- `slice.chunks_exact(k)`: the complete pieces of length `k` (a shorter remainder is dropped) -/
+def chunksExact {α} (k : Nat) (l : List α) : List (List α) := (List.range (l.length / k)).map fun i => (l.drop (i * k)).take k
 /-- `xs.iter().enumerate()` -/
 def enumerate {α} (l : List α) : List (Nat × α) := (List.range l.length).zip l
 /-- `[x; n]` -/
